@@ -845,12 +845,12 @@ def file_failure_class(desc, rows, r, fmt, multi, parser, insts, T, X):
     characters starting with "=" comes back empty (openpyxl stores it as a formula)."""
     if r[0] != "ok" or len(r[1]) != len(rows):
         return f"file-roundtrip-{fmt}"
+    from rpft.parsers.common.rowdatasheet import RowDataSheet
     dicts = [dict(rowgen.impl_unparse(parser, i, T, X)) for i in insts]
-    headers = []
-    for d in dicts:
-        for h in d:
-            if h not in headers:
-                headers.append(h)
+    # the columns in the order the sheet has them (the implementation's own merge of the rows' header orders): the order
+    # matters when a row has a whole-list cell and element cells of the same list (`message_text` of a begin_for row next
+    # to `mainarg_iterlist.1` columns that another row brought in) — FX7: the prediction used to re-sort the columns
+    headers = RowDataSheet(parser, insts, set(T), set(X))._get_headers()
 
     def predicted(eq):
         out = []
@@ -858,8 +858,6 @@ def file_failure_class(desc, rows, r, fmt, multi, parser, insts, T, X):
             cells = {h: d.get(h, "") for h in headers}
             if eq:
                 cells = {h: ("" if s.startswith("=") and len(s) > 1 else s) for h, s in cells.items()}
-            # column order inside one row does not matter for these rows (C07-3), only list order
-            cells = dict(sorted(cells.items(), key=lambda kv: [int(c) if c.isdigit() else 0 for c in kv[0].split(".")]))
             p = impl_parse(parser, list(cells.items()))
             out.append(p[1] if p[0] == "ok" else None)
         return out
